@@ -342,6 +342,13 @@ class Program:
                     return ("module", self.modules[modname])
                 return ("ext", modname)
             sub = "%s.%s" % (modname, attr)
+            # `from pkg import name`: an attribute bound in pkg/__init__ wins over a submodule of the same name
+            if modname in self.modules and attr in self.modules[modname].names:
+                b2 = self.modules[modname].names[attr]
+                if not (b2[0] == "import" and b2[2] is None and b2[1] == sub):
+                    r = self.resolve_name(self.modules[modname], attr, _depth + 1)
+                    if r is not None:
+                        return r
             if sub in self.modules:
                 return ("module", self.modules[sub])
             if modname in self.modules:
